@@ -287,6 +287,13 @@ static void v_scale_diag(const M &A0, vr::rng &g, const char *tag) {
     auto sf = scale.rhs(f); scale(x);
     e << ",\"vx\":["; for (size_t i = 0; i < n; ++i) e << (i ? "," : "") << (long long)f[i];
     e << "],\"vs\":["; for (size_t i = 0; i < n; ++i) { if (!vr::small_int(4 * (*sf)[i]) || (*sf)[i] != x[i]) ex = false; e << (i ? "," : "") << (long long)(4 * x[i]); } e << "]";
+    // history on one scaled_problem object: the results of separate rhs() calls are separate vectors
+    {   std::vector<double> b2(n); for (size_t i = 0; i < n; ++i) b2[i] = 3 - (double)(i % 4);
+        auto f1 = scale.rhs(f); std::vector<double> keep(n); for (size_t i = 0; i < n; ++i) keep[i] = (*f1)[i];
+        auto f2 = scale.rhs(b2);
+        bool indep = f1.get() != f2.get() && f1->size() == n && f2->size() == n;
+        for (size_t i = 0; indep && i < n; ++i) indep = (*f1)[i] == keep[i] && (*f1)[i] == (*scale.s)[i] * f[i] && (*f2)[i] == (*scale.s)[i] * b2[i];
+        e << ",\"rhs_independent\":" << (indep ? "true" : "false"); }
     if (!ex) { vr::obj o; o.str("k", "view").str("ad", "scaled_matrix").str("it", "scale_diagonal").str("tag", tag).str("exc", "scale_diagonal produced a non-dyadic / non-finite scale or rhs() != operator()"); vr::emit(o.done()); return; }
     rec_view("scaled_matrix", "scale_diagonal", tag, A, scale.matrix(T), e.str(), 4);
 }
